@@ -222,7 +222,12 @@ func runS2Job(j *check.Job) *check.Result {
 	}
 	// determinism self-check: the default execution twice
 	RunBlock(mk(), &explore.FixedChooser{}, false) // warm-up: process-wide caches (message-type names) fill on first use
-	rw.fresh()
+	// The detector reports a race once per process: one that shows on the default
+	// schedule is reported during the warm-up and never again. It belongs to the
+	// default schedule (empty choice list).
+	for _, r := range rw.fresh() {
+		res.Violations = append(res.Violations, check.Violation{Scenario: j.Name, Oracle: "race", Detail: r.Sig, Info: "unsynchronised conflicting accesses (Go race detector, happens-before, on the default schedule):\n" + r.Text, Replay: &check.Replay{}, Tags: violationTags("race", r.Sig)})
+	}
 	b := mk()
 	o1, _ := RunBlock(b, &explore.FixedChooser{}, false)
 	o2, _ := RunBlock(mk(), &explore.FixedChooser{}, false)
